@@ -1,4 +1,6 @@
 import CharsetProof.Props.C15
+import CharsetProof.Props.C15b
+import CharsetProof.Props.C15c
 open Charset
 #print axioms fsGet_fsPut
 #print axioms processFile_effect
@@ -7,3 +9,9 @@ open Charset
 #print axioms C15_single_utf_or_none
 #print axioms C15_replace_needs_force
 #print axioms C15_replace_force
+#print axioms C15_multi_normalize
+#print axioms C15_multi_targets
+#print axioms go_normalize
+#print axioms go_writes
+#print axioms C15_multi_effect
+#print axioms C15_multi_replace_force
